@@ -1002,6 +1002,11 @@ void flexinit (int argc, char **argv)
 
 		    case OPT_EMIT:
 			ctrl.emit = arg;
+			/* The back end decides how actions are scanned
+			 * (rewriting of yytext &c.): select it now, as
+			 * %option emit does, not after the rules.
+			 */
+			backend_by_name(ctrl.emit);
 			break;
 
 		    case OPT_HEADER_FILE:
